@@ -88,6 +88,22 @@ def expander_view(args):
     return seen
 
 
+def nested_view(args):
+    """the same call written inside another template's body, as the expander hands it to template_fn"""
+    seen = {}
+
+    def tf(name, ht):
+        if name == "T":
+            seen.update({k: (ctx._finalize_expand(v) if isinstance(v, str) else v) for k, v in ht.items()})
+            return ""
+        return None
+    ctx.add_page("Template:Wn", 10, "{{T|" + "|".join(args) + "}}")
+    ctx.start_page("Tt")
+    with quiet_stdout():
+        ctx.expand("{{Wn}}", template_fn=tf)
+    return seen
+
+
 def parser_view(args, **pkw):
     ctx.start_page("Tt")
     with quiet_stdout():
@@ -170,6 +186,16 @@ for args in lists:
     except Exception as ex:
         fail("c14:views#no-exception", f"{type(ex).__name__}: {ex}", {"args": args}, type(ex).__name__)
         continue
+    try:
+        nv = nested_view(args)
+    except Exception as ex:
+        fail("c14:views#no-exception", f"nested view: {type(ex).__name__}: {ex}", {"args": args}, type(ex).__name__)
+        nv = want
+    if nv != want:
+        norm = {k: (v.removesuffix("\n") if isinstance(v, str) and isinstance(k, int) else v) for k, v in want.items()}
+        wc = "known-deviation:positional-value-loses-one-trailing-newline" if nv == norm else "value"
+        fail("c14:nested-expander-view#keys-and-values-as-stated" + ("" if wc == "value" else "[trailing-newline]"),
+             f"the call written in a template body: template_fn sees {nv} want {want}", {"args": args, "body": "{{T|" + "|".join(args) + "}}"}, wc)
     for vn, got in views.items():
         if got != want:
             # narrow classes for documented deviations
